@@ -373,10 +373,13 @@ pub fn derive_block(input: TokenStream) -> TokenStream {
     {
         let first = in_names[0].clone();
         let rest = &in_names[1..];
+        // izip!() rather than chained .zip(): chaining nests the tuples
+        // (((a, b), c)), which does not match the flat (a, b, c) pattern of the
+        // closure below, so blocks with three or more inputs failed to compile.
         let it = if in_names.len() == 1 {
             quote! { #first.iter().take(n) }
         } else {
-            quote! { #first.iter().take(n)#(.zip(#rest.iter()))* }
+            quote! { itertools::izip!(#first.iter().take(n)#(, #rest.iter())*) }
         };
         if has_attr(&input.attrs, "sync", STRUCT_ATTRS) {
             let first_tags = &in_tag_names[0];
